@@ -38,30 +38,41 @@ pub struct Record {
     pub receptions: Vec<u64>,
 }
 
-fn run_real(hist: &[Arrival], window: u32, frames: &[Vec<u8>]) -> Result<Vec<Record>, String> {
+/// Channel capacities (input, output); 0 = "roomy" (history length + 8, nothing ever waits).
+pub type Caps = (usize, usize);
+
+fn run_real(hist: &[Arrival], window: u32, frames: &[Vec<u8>], caps: Caps) -> Result<Vec<Record>, String> {
     catch(|| {
         futures::executor::block_on(async {
-            let (tx_in, rx_in) = tokio::sync::mpsc::channel::<TimedMessage>(hist.len() + 8);
-            let (tx_out, mut rx_out) = tokio::sync::mpsc::channel::<TimedMessage>(hist.len() + 8);
-            for (i, a) in hist.iter().enumerate() {
-                let m = TimedMessage {
-                    timestamp: ts_of(a.ms),
-                    frame: frames[a.frame as usize].clone(),
-                    message: None,
-                    metadata: vec![SensorMetadata { system_timestamp: ts_of(a.ms), gnss_timestamp: None, nanoseconds: Some(i as u64), rssi: None, serial: a.rx as u64, name: None }],
-                    decode_time: None,
-                };
-                tx_in.send(m).await.expect("send");
-            }
-            drop(tx_in);
-            deduplicate_messages(rx_in, tx_out, window).await;
-            let mut out = vec![];
-            while let Some(m) = rx_out.recv().await {
-                out.push(Record { frame: m.frame.clone(), ts: m.timestamp, receptions: m.metadata.iter().map(|x| x.nanoseconds.unwrap_or(u64::MAX)).collect() });
-                if m.message.is_none() {
-                    out.last_mut().unwrap().receptions.push(u64::MAX - 1); // marker: emitted undecoded
+            let cap = |c: usize| if c == 0 { hist.len() + 8 } else { c };
+            let (tx_in, rx_in) = tokio::sync::mpsc::channel::<TimedMessage>(cap(caps.0));
+            let (tx_out, mut rx_out) = tokio::sync::mpsc::channel::<TimedMessage>(cap(caps.1));
+            // producer, deduplicator and consumer run as three cooperative tasks on this thread (deterministic
+            // polling order), as in the application where the output queue is bounded and drained concurrently
+            let producer = async move {
+                for (i, a) in hist.iter().enumerate() {
+                    let m = TimedMessage {
+                        timestamp: ts_of(a.ms),
+                        frame: frames[a.frame as usize].clone(),
+                        message: None,
+                        metadata: vec![SensorMetadata { system_timestamp: ts_of(a.ms), gnss_timestamp: None, nanoseconds: Some(i as u64), rssi: None, serial: a.rx as u64, name: None }],
+                        decode_time: None,
+                    };
+                    tx_in.send(m).await.expect("send");
                 }
-            }
+                drop(tx_in);
+            };
+            let consumer = async {
+                let mut out = vec![];
+                while let Some(m) = rx_out.recv().await {
+                    out.push(Record { frame: m.frame.clone(), ts: m.timestamp, receptions: m.metadata.iter().map(|x| x.nanoseconds.unwrap_or(u64::MAX)).collect() });
+                    if m.message.is_none() {
+                        out.last_mut().unwrap().receptions.push(u64::MAX - 1); // marker: emitted undecoded
+                    }
+                }
+                out
+            };
+            let ((), (), out) = futures::join!(producer, deduplicate_messages(rx_in, tx_out, window), consumer);
             out
         })
     })
@@ -115,10 +126,20 @@ pub fn model(hist: &[Arrival], window: u32, frames: &[Vec<u8>], decodable: &[boo
 }
 
 pub fn check_hist(ctx: &Ctx, hist: &[Arrival], window: u32, frames: &[Vec<u8>], decodable: &[bool]) -> Check {
+    check_hist_caps(ctx, hist, window, frames, decodable, (0, 0))
+}
+
+/// canonical order for comparing record multisets
+fn canon(mut v: Vec<Record>) -> Vec<Record> {
+    v.sort_by(|a, b| (&a.receptions, &a.frame).cmp(&(&b.receptions, &b.frame)));
+    v
+}
+
+pub fn check_hist_caps(ctx: &Ctx, hist: &[Arrival], window: u32, frames: &[Vec<u8>], decodable: &[bool], caps: Caps) -> Check {
     ctx.eval();
-    let rep = json!({"kind": "dedup", "window": window, "history": hist.iter().map(|a| json!([a.frame, a.rx, a.ms])).collect::<Vec<_>>()});
+    let rep = json!({"kind": "dedup", "window": window, "caps": [caps.0, caps.1], "history": hist.iter().map(|a| json!([a.frame, a.rx, a.ms])).collect::<Vec<_>>()});
     let fail = |sig: &str, d: String| Failure::new(format!("c10:{sig}"), d, rep.clone());
-    let got = run_real(hist, window, frames).map_err(|p| fail("panic", p))?;
+    let got = run_real(hist, window, frames, caps).map_err(|p| fail("panic", p))?;
     // ---- invariants that need no model
     let mut seen = std::collections::BTreeSet::new();
     for r in &got {
@@ -161,7 +182,9 @@ pub fn check_hist(ctx: &Ctx, hist: &[Arrival], window: u32, frames: &[Vec<u8>], 
             return Err(fail("reception-emitted-before-window-closed", format!("reception {i}")));
         }
     }
-    if got != want {
+    // the records as a multiset: the property fixes the order only for non-decreasing arrivals (checked below), and
+    // among groups that expire on the same arrival with the same first arrival it fixes none
+    if canon(got.clone()) != canon(want.clone()) {
         return Err(fail("differs-from-reference-model", format!("implementation {:?}\nmodel {:?}", got.iter().map(|r| (&r.receptions, r.ts)).collect::<Vec<_>>(), want.iter().map(|r| (&r.receptions, r.ts)).collect::<Vec<_>>())));
     }
     // ---- ordered-arrival guarantees
@@ -276,75 +299,111 @@ pub fn run(ctx: &Ctx) {
             // dense bursts: few frames, times within a few ms
             proptest::collection::vec(arrival(3, 3, (5000..5012).collect()), 0..80),
         ];
-        run_prop(ctx, &format!("random-{s}"), n / shards, (hist, proptest::sample::select(vec![0u32, 1, 2, 5, 400, 450])), |(h, w)| {
+        let caps = prop_oneof![2 => Just((0usize, 0usize)), 1 => (0usize..4, 1usize..4), 1 => (1usize..3, 0usize..2)];
+        run_prop(ctx, &format!("random-{s}"), n / shards, (hist, proptest::sample::select(vec![0u32, 1, 2, 5, 400, 450]), caps), |(h, w, caps)| {
             let monotone = h.windows(2).all(|x| x[0].ms <= x[1].ms);
             ctx.class(if monotone { "random history, non-decreasing arrivals" } else { "random history, unordered arrivals" });
-            check_hist(ctx, h, *w, &frames, &decodable)
+            ctx.class(if caps.1 == 0 { "roomy output queue" } else { "bounded output queue (1-3 slots, drained concurrently)" });
+            check_hist_caps(ctx, h, *w, &frames, &decodable, *caps)
         });
     });
     let h = vec![Arrival { frame: 0, rx: 0, ms: 1000 }, Arrival { frame: 0, rx: 1, ms: 1001 }, Arrival { frame: 3, rx: 0, ms: 1001 }, Arrival { frame: 1, rx: 2, ms: 1500 }];
-    ctx.sample(json!({"window": 400, "history": h.iter().map(|a| json!({"frame": hex::encode(&frames[a.frame as usize]), "receiver": a.rx, "ms": a.ms})).collect::<Vec<_>>(), "emitted": run_real(&h, 400, &frames).map(|r| r.iter().map(|x| json!({"receptions": x.receptions, "ts": x.ts})).collect::<Vec<_>>()).ok()}));
-    if ctx.tier == vcore::ev::Tier::Thorough {
-        cli_differential(ctx, &frames, &decodable);
-    }
+    ctx.sample(json!({"window": 400, "history": h.iter().map(|a| json!({"frame": hex::encode(&frames[a.frame as usize]), "receiver": a.rx, "ms": a.ms})).collect::<Vec<_>>(), "emitted": run_real(&h, 400, &frames, (0, 0)).map(|r| r.iter().map(|x| json!({"receptions": x.receptions, "ts": x.ts})).collect::<Vec<_>>()).ok()}));
+    cli_differential(ctx);
 }
 
-/// decode1090 carries its own copy of the loop (and flushes at end of input): run the real binary.
-fn cli_differential(ctx: &Ctx, frames: &[Vec<u8>], decodable: &[bool]) {
-    let Ok(bin) = std::env::var("DECODE1090_BIN") else {
-        ctx.observe("decode1090 binary not provided (DECODE1090_BIN); CLI differential skipped");
-        return;
-    };
+/// 14 decodable frames (12 distinct DF17 identifications + DF4 + DF11) and one undecodable, for the CLI runs
+pub fn cli_pool() -> Vec<Vec<u8>> {
+    let mut v: Vec<Vec<u8>> = (0..12u32).map(|k| enc::df17(5, 0x4840d0 + k * 0x1111, &enc::me_ident(4, 3, &[1, 2, 3, 4, 5, 6, 7, (k % 26 + 1) as u8]))).collect();
+    v.push(enc::df4(0, 0, 0, enc::ac13_q(1560), 0x3c6444));
+    v.push(enc::df11(5, 0x39c424, 0));
+    let mut bad = v[0].clone();
+    bad[13] ^= 0x55;
+    v.push(bad);
+    v
+}
+
+/// One history through the real decode1090 binary (its own copy of the loop, which also flushes at end of input).
+fn cli_case(ctx: &Ctx, bin: &str, h: &[Arrival], w: u32, frames: &[Vec<u8>]) -> Check {
     use std::io::Write;
-    let mut r = vcore::ev::SplitMix::new(ctx.sub("cli"));
-    let dir = std::env::temp_dir().join(format!("verif-c10-{}", std::process::id()));
+    let decodable: Vec<bool> = frames.iter().map(|f| Message::try_from(f.as_slice()).is_ok()).collect();
+    let rep = json!({"kind": "dedup", "window": w, "history": h.iter().map(|a| json!([a.frame, a.rx, a.ms])).collect::<Vec<_>>(), "via": "decode1090"});
+    let fail = |sig: &str, d: String| Failure::new(format!("c10:cli:{sig}"), d, rep.clone());
+    let dir = vcore::ev::out_root().join(".tmp");
     let _ = std::fs::create_dir_all(&dir);
-    let mut n = 0u64;
-    for case in 0..200 {
-        let len = 1 + r.below(40) as usize;
-        let mut h: Vec<Arrival> = (0..len).map(|_| Arrival { frame: r.below(6) as u8, rx: r.below(3) as u8, ms: 10_000 + r.below(30) * 150 }).collect();
-        if case % 2 == 0 {
-            h.sort_by_key(|a| a.ms);
-        }
-        let w = [0u32, 1, 5, 400, 450][r.below(5) as usize];
-        let path = dir.join("in.jsonl");
-        let mut f = std::fs::File::create(&path).unwrap();
+    let path = dir.join(format!("c10-{}-{:?}.jsonl", std::process::id(), std::thread::current().id()));
+    {
+        let mut f = std::fs::File::create(&path).expect("scratch file");
         for (i, a) in h.iter().enumerate() {
             writeln!(f, "{}", json!({"timestamp": ts_of(a.ms), "frame": hex::encode(&frames[a.frame as usize]), "metadata": [{"system_timestamp": ts_of(a.ms), "serial": a.rx, "nanoseconds": i}]})).unwrap();
         }
-        drop(f);
-        let out = std::process::Command::new(&bin).args(["-i", path.to_str().unwrap(), "-d", &w.to_string()]).output();
-        let Ok(out) = out else {
-            ctx.observe("decode1090 could not be started");
-            break;
-        };
-        ctx.eval();
-        n += 1;
-        let rep = json!({"kind": "dedup", "window": w, "history": h.iter().map(|a| json!([a.frame, a.rx, a.ms])).collect::<Vec<_>>(), "via": "decode1090"});
-        if !out.status.success() {
-            ctx.judge(Err(Failure::new("c10:cli:decode1090-failed", String::from_utf8_lossy(&out.stderr).chars().take(300).collect::<String>(), rep)));
-            continue;
+    }
+    let out = std::process::Command::new(bin).args(["-i", path.to_str().unwrap(), "-d", &w.to_string()]).output();
+    let _ = std::fs::remove_file(&path);
+    let Ok(out) = out else {
+        eprintln!("INCONCLUSIVE: decode1090 could not be started");
+        std::process::exit(2);
+    };
+    ctx.eval();
+    if !out.status.success() {
+        return Err(fail("decode1090-failed", String::from_utf8_lossy(&out.stderr).chars().take(300).collect::<String>()));
+    }
+    let got: Vec<Record> = String::from_utf8_lossy(&out.stdout)
+        .lines()
+        .filter_map(|l| serde_json::from_str::<Value>(l).ok())
+        .map(|v| Record { frame: hex::decode(v["frame"].as_str().unwrap_or("")).unwrap_or_default(), ts: v["timestamp"].as_f64().unwrap_or(-1.0), receptions: v["metadata"].as_array().map(|a| a.iter().map(|m| m["nanoseconds"].as_u64().unwrap_or(u64::MAX)).collect()).unwrap_or_default() })
+        .collect();
+    // model + the still-open groups, which end of input flushes
+    let (mut want, pending) = model(h, w, frames, &decodable);
+    let mut groups: std::collections::BTreeMap<u8, Vec<u64>> = Default::default();
+    for p in pending {
+        groups.entry(h[p as usize].frame).or_default().push(p);
+    }
+    want.extend(groups.into_iter().filter(|(f, _)| decodable[*f as usize]).map(|(f, m)| Record { frame: frames[f as usize].clone(), ts: ts_of(h[m[0] as usize].ms), receptions: m }));
+    // timestamps travel through JSON text twice (serde_json's default float parser may be 1 ulp off): 1 us slack
+    let (cg, cw) = (canon(got.clone()), canon(want.clone()));
+    let same = cg.len() == cw.len() && cg.iter().zip(cw.iter()).all(|(a, b)| a.frame == b.frame && a.receptions == b.receptions && (a.ts - b.ts).abs() < 1e-6);
+    if !same {
+        return Err(fail("differs-from-reference-model", format!("decode1090 {:?} model {:?}", got.iter().map(|r| (&r.receptions, r.ts, hex::encode(&r.frame))).collect::<Vec<_>>(), want.iter().map(|r| (&r.receptions, r.ts, hex::encode(&r.frame))).collect::<Vec<_>>())));
+    }
+    let monotone = h.windows(2).all(|x| x[0].ms <= x[1].ms);
+    if monotone {
+        let first_ms = |r: &Record| h[r.receptions[0] as usize].ms;
+        if got.windows(2).any(|x| first_ms(&x[0]) > first_ms(&x[1])) {
+            return Err(fail("output-not-in-order-of-first-arrival", format!("first arrivals (ms) in output order: {:?}", got.iter().map(first_ms).collect::<Vec<_>>())));
         }
-        let got: Vec<Record> = String::from_utf8_lossy(&out.stdout)
-            .lines()
-            .filter_map(|l| serde_json::from_str::<Value>(l).ok())
-            .map(|v| Record { frame: hex::decode(v["frame"].as_str().unwrap_or("")).unwrap_or_default(), ts: v["timestamp"].as_f64().unwrap_or(-1.0), receptions: v["metadata"].as_array().map(|a| a.iter().map(|m| m["nanoseconds"].as_u64().unwrap_or(u64::MAX)).collect()).unwrap_or_default() })
-            .collect();
-        // model + flush of the still-open groups in (expiry, frame) order
-        let (mut want, pending) = model(&h, w, frames, decodable);
-        let mut groups: std::collections::BTreeMap<u8, Vec<u64>> = Default::default();
-        for p in pending {
-            groups.entry(h[p as usize].frame).or_default().push(p);
-        }
-        let mut rest: Vec<(u128, Vec<u8>, Record)> = groups.into_iter().filter(|(f, _)| decodable[*f as usize]).map(|(f, m)| (((ts_of(h[m[0] as usize].ms) * 1e3) as u128) + w as u128, frames[f as usize].clone(), Record { frame: frames[f as usize].clone(), ts: ts_of(h[m[0] as usize].ms), receptions: m })).collect();
-        rest.sort_by(|a, b| (a.0, &a.1).cmp(&(b.0, &b.1)));
-        want.extend(rest.into_iter().map(|x| x.2));
-        if got != want {
-            ctx.judge(Err(Failure::new("c10:cli:differs-from-reference-model", format!("decode1090 {:?} model {:?}", got.iter().map(|r| &r.receptions).collect::<Vec<_>>(), want.iter().map(|r| &r.receptions).collect::<Vec<_>>()), rep)));
+        if got.iter().filter(|r| r.receptions.len() >= 2).count() > 0 && got.len() >= 4 {
+            ctx.nontrivial(h64(&(h, w, "cli")));
         }
     }
-    let _ = std::fs::remove_dir_all(&dir);
-    ctx.class_n("histories through the real decode1090 binary", n);
+    Ok(())
+}
+
+fn cli_differential(ctx: &Ctx) {
+    let Ok(bin) = std::env::var("DECODE1090_BIN") else {
+        eprintln!("INCONCLUSIVE: DECODE1090_BIN is not set (run through ./check)");
+        std::process::exit(2);
+    };
+    let frames = cli_pool();
+    let nf = frames.len() as u8;
+    let n = ctx.tier.pick(96u32, 1600u32);
+    let shards = 16u32;
+    (0..shards).into_par_iter().for_each(|s| {
+        // (a) sparse: arrivals 150 ms apart; (b) dense: many groups open at once and at end of input
+        let sparse = || proptest::collection::vec(arrival(nf, 3, (0..30u64).map(|k| 10_000 + k * 150).collect()), 1..40);
+        let dense = || proptest::collection::vec(arrival(nf, 3, (0..60u64).map(|k| 20_000 + k * 17).collect()), 4..60);
+        let hist = prop_oneof![sparse(), dense(), sparse().prop_map(sorted), dense().prop_map(sorted)];
+        run_prop(ctx, &format!("cli-{s}"), n / shards, (hist, proptest::sample::select(vec![0u32, 1, 5, 400, 450])), |(h, w)| {
+            let monotone = h.windows(2).all(|x| x[0].ms <= x[1].ms);
+            ctx.class(if monotone { "decode1090 run, non-decreasing arrivals" } else { "decode1090 run, unordered arrivals" });
+            cli_case(ctx, &bin, h, *w, &frames)
+        });
+    });
+}
+
+fn sorted(mut v: Vec<Arrival>) -> Vec<Arrival> {
+    v.sort_by_key(|a| a.ms);
+    v
 }
 
 pub fn replay(ctx: &Ctx, v: &Value) {
@@ -352,5 +411,19 @@ pub fn replay(ctx: &Ctx, v: &Value) {
     let decodable: Vec<bool> = frames.iter().map(|f| Message::try_from(f.as_slice()).is_ok()).collect();
     let hist: Vec<Arrival> = v["history"].as_array().map(|a| a.iter().map(|x| Arrival { frame: x[0].as_u64().unwrap_or(0) as u8, rx: x[1].as_u64().unwrap_or(0) as u8, ms: x[2].as_u64().unwrap_or(0) }).collect()).unwrap_or_default();
     let w = v["window"].as_u64().unwrap_or(450) as u32;
-    ctx.judge(check_hist(ctx, &hist, w, &frames, &decodable));
+    if v["via"] == "decode1090" {
+        match std::env::var("DECODE1090_BIN") {
+            Ok(bin) => {
+                let big = cli_pool();
+                ctx.judge(cli_case(ctx, &bin, &hist, w, &big));
+            }
+            Err(_) => {
+                eprintln!("INCONCLUSIVE: DECODE1090_BIN is not set (replay through ./check)");
+                std::process::exit(2);
+            }
+        }
+        return;
+    }
+    let caps = (v["caps"][0].as_u64().unwrap_or(0) as usize, v["caps"][1].as_u64().unwrap_or(0) as usize);
+    ctx.judge(check_hist_caps(ctx, &hist, w, &frames, &decodable, caps));
 }
